@@ -14,6 +14,7 @@ Sub-spaces
   combined(tier)  everything at once (7 compartments, 2 populations) x value levels x dt
 """
 
+import copy
 import itertools
 
 DTS = dict(quick=[1.0, 0.25, 1 / 12], thorough=[1.0, 0.25, 1 / 12, 0.1, 0.3, 0.5, 1 / 52, 2.0])
@@ -81,11 +82,13 @@ def add_edge(spec, s, d, et, name=None):
     return name
 
 
-def add_source(spec, dest, n=None):
+def add_source(spec, dest, n=None, ts=None):
     if n is None:
         n = {"t": [START, START + 1, START + 1.5], "v": [30.0, 30.0, 0.0]}  # births stop (exactly zero) from START+1.5 on
+        if ts:
+            n = dict(n, v=[x * ts for x in n["v"]])  # the same births entered per month / per week (parameter timescale ts years)
     spec["comps"].append(dict(name="src", kind="src"))
-    spec["pars"].append(dict(name="br", fmt="number", val=n))
+    spec["pars"].append(dict(name="br", fmt="number", val=n, ts=ts))
     spec["links"].append(["src", dest, "br"])
 
 
@@ -100,8 +103,8 @@ def flows(tier):
     dts = DTS[tier]
     for c in (1, 2, 3):
         for names, edges in core_graphs(c, {1: 0, 2: 2, 3: 3 if tier == "quick" else 4}[c]):
-            for extras in itertools.product([False, True], [False, True]):
-                source, sink = extras
+            for extras in itertools.product([False, True] + ([1 / 12, 7 / 365] if c < 3 else []), [False, True]):
+                source, sink = extras  # source: False | True (births per year) | timescale in years (births entered per month / per week)
                 if not edges and not (source or sink):
                     continue
                 for dt in dts:
@@ -112,7 +115,7 @@ def flows(tier):
                         for (s, d), i in zip(edges, combo):
                             add_edge(spec, s, d, ets[i])
                         if source:
-                            add_source(spec, names[0])
+                            add_source(spec, names[0], ts=None if source is True else source)
                         if sink:
                             add_sink(spec, names)
                         spec["characs"].append(dict(name="alive", comps=list(names)))
@@ -315,6 +318,15 @@ def timed(tier):
                         spec["tag"] = "timed"
                         spec["timed"] = dict(struct=struct, D=lab, extra=extra, ainit=ainit)
                         yield spec
+                        if struct in ("group", "group_junction", "group_junction2", "group_resjunction") and extra == 0.3 and ainit:
+                            # the same model with its parameter rows in another order: the time-preserving moves are declared (and attached
+                            # to their source compartments) BEFORE the duration parameter and the ordinary outflows
+                            s2 = copy.deepcopy(spec)
+                            first = [p for p in s2["pars"] if p["name"] in ("mv", "mv2", "s1", "s2")]
+                            s2["pars"] = first + [p for p in s2["pars"] if p not in first]
+                            s2["links"] = [l for l in s2["links"] if l[2] in ("mv", "mv2", "s1", "s2", ">")] + [l for l in s2["links"] if l[2] not in ("mv", "mv2", "s1", "s2", ">")]
+                            s2["timed"] = dict(s2["timed"], order="moves_first")
+                            yield s2
 
 
 # ---------------------------------------------------------------- populations / transfers / aggregation / programs
